@@ -522,7 +522,7 @@ func (e *engine) prepare(op Op) (*prepared, error) {
 				return nil, errSkip
 			}
 		}
-		if fd != nil && wouldCycle(tgt, dynV(e.w)) {
+		if fd != nil && wouldCycle(writtenNodes(tgt, fd, true), dynV(e.w)) {
 			return nil, errSkip
 		}
 		p.mutIdx = ti
@@ -618,6 +618,7 @@ func (e *engine) prepare(op Op) (*prepared, error) {
 				return nil, errSkip
 			}
 			p.real = func() (starlark.Value, error) { return e.call(helpers["getkey"], tgt.real.(starlark.Value), rk) }
+			p.storeFD, p.storeKey = tgt.fd, true // the key goes through the same conversion as in an assignment
 			var want mElem
 			p.model = func(w *world, c *mctx) (*handle, error) {
 				t := w.all()[ti]
@@ -653,7 +654,7 @@ func (e *engine) prepare(op Op) (*prepared, error) {
 		if tgt == nil || op.V == nil {
 			return nil, errSkip
 		}
-		if wouldCycle(tgt, dynV(e.w)) {
+		if wouldCycle(writtenNodes(tgt, nil, false), dynV(e.w)) {
 			return nil, errSkip
 		}
 		p.mutIdx = ti
@@ -703,7 +704,7 @@ func (e *engine) prepare(op Op) (*prepared, error) {
 		if tgt == nil || op.V == nil || op.K == nil {
 			return nil, errSkip
 		}
-		if wouldCycle(tgt, dynV(e.w)) {
+		if wouldCycle(writtenNodes(tgt, nil, false), dynV(e.w)) {
 			return nil, errSkip
 		}
 		p.mutIdx = ti
@@ -758,7 +759,7 @@ func (e *engine) prepare(op Op) (*prepared, error) {
 		if !ok {
 			return nil, errSkip
 		}
-		if wouldCycle(tgt, dynV(e.w)) {
+		if wouldCycle(writtenNodes(tgt, nil, false), dynV(e.w)) {
 			return nil, errSkip
 		}
 		p.mutIdx = ti
@@ -918,9 +919,11 @@ func (e *engine) step(i int, op Op) (stop bool, err error) {
 	e.steps++
 	where := fmt.Sprintf("step %d %s", i, op)
 	var mut *handle
+	var mutated []any
 	if p.mutIdx >= 0 {
 		mut = e.w.all()[p.mutIdx]
 		e.noteCross(mut)
+		mutated = writtenNodes(mut, p.storeFD, !p.elemOnly)
 	}
 	if op.Op == "freeze" {
 		e.froze = true
@@ -936,17 +939,27 @@ func (e *engine) step(i int, op Op) (stop bool, err error) {
 	if p.risky {
 		w2 = e.w.clone()
 	}
-	nh, merr := p.model(e.w, &mctx{w: e.w, lenient: ok})
-	if w2 != nil {
-		p.model(w2, &mctx{w: w2, lenient: ok, ideal: true})
+	panID := ""
+	if pan != "" {
+		if panID = e.cataloguedPanic(op, p); panID == "" {
+			return false, bad("%s: host panic: %s", where, pan)
+		}
+	}
+	var nh *handle
+	var merr error
+	if panID == "C20-extension-list-or-clear-panic" {
+		// The panic happens before anything is touched: nothing may have changed.
+		w2 = nil
+	} else {
+		// (A bytes-into-string panic happens where a rejection would: the model runs with bytes rejected.)
+		nh, merr = p.model(e.w, &mctx{w: e.w, lenient: ok})
+		if w2 != nil {
+			p.model(w2, &mctx{w: w2, lenient: ok, ideal: true})
+		}
 	}
 	switch {
 	case pan != "":
-		if id := e.cataloguedPanic(op, p); id != "" {
-			e.noteKnown(id, fmt.Sprintf("%s: host panic: %s", where, pan))
-		} else {
-			return false, bad("%s: host panic: %s", where, pan)
-		}
+		e.noteKnown(panID, fmt.Sprintf("%s: host panic: %s", where, pan))
 	case p.unsupp && rerr == nil:
 		e.classes["step:unsupported-op-succeeded"] = true
 		vk.S.Note("operation %s succeeded; the case was cut there", op.F)
@@ -993,7 +1006,7 @@ func (e *engine) step(i int, op Op) (stop bool, err error) {
 			e.noteKnown("C20-assign-clears-before-validating", fmt.Sprintf("%s: %s: %s", where, shape, firstDiff(b, a)))
 		}
 	}
-	if err := e.checkFrozen(where, mut); err != nil {
+	if err := e.checkFrozen(where, mut, mutated); err != nil {
 		return false, err
 	}
 	for _, h := range e.w.all() {
@@ -1073,7 +1086,15 @@ func (e *engine) compare(w *world) error {
 }
 
 // classify explains a change of frozen handle h's content by the sharing that lets handle g reach it.
-func classify(h, g *handle) string {
+func classify(h *handle, mutated []any) string {
+	isMut := func(n any) bool {
+		for _, x := range mutated {
+			if x == n {
+				return true
+			}
+		}
+		return false
+	}
 	type key struct {
 		n    any
 		c, a bool
@@ -1102,7 +1123,7 @@ func classify(h, g *handle) string {
 			return
 		}
 		seen[key{l, c, a}] = true
-		if l == g.list {
+		if isMut(l) {
 			hit(c, a)
 		}
 		for _, e := range l.elems {
@@ -1118,7 +1139,7 @@ func classify(h, g *handle) string {
 			return
 		}
 		seen[key{m, c, a}] = true
-		if m == g.mp {
+		if isMut(m) {
 			hit(c, a)
 		}
 		for _, e := range m.vals {
@@ -1134,7 +1155,7 @@ func classify(h, g *handle) string {
 			return
 		}
 		seen[key{m, c, a}] = true
-		if m == g.msg {
+		if isMut(m) {
 			hit(c, a)
 		}
 		for _, s := range m.known {
@@ -1159,7 +1180,7 @@ func classify(h, g *handle) string {
 
 // checkFrozen: the printed form (and content) of every frozen handle must be what it was when it
 // became frozen.
-func (e *engine) checkFrozen(where string, mut *handle) error {
+func (e *engine) checkFrozen(where string, mut *handle, mutated []any) error {
 	for i, h := range e.w.watched() {
 		if !h.flag.frozen {
 			continue
@@ -1175,7 +1196,7 @@ func (e *engine) checkFrozen(where string, mut *handle) error {
 		}
 		id := ""
 		if mut != nil && mut.flag != h.flag && !mut.flag.frozen && cur != h.frozenCanon {
-			id = classify(h, mut)
+			id = classify(h, mutated)
 		}
 		if id == "" {
 			return bad("%s: frozen handle %d (%s) changed: printed %s, now %s", where, i, h.origin, h.frozenStr, s)
@@ -1199,7 +1220,7 @@ func (e *engine) roundTrip(i int, op Op) error {
 		form, mar, unmar = "text", "marshal_text", "unmarshal_text"
 	}
 	where := fmt.Sprintf("step %d %s round trip of handle (%s)", i, form, tgt.origin)
-	missing, badUTF8 := marshalObstacles(tgt.msg)
+	missing, badUTF8, hasExt := marshalObstacles(tgt.msg)
 	obstacle := func(stage string, err error, pan string) error {
 		switch {
 		case pan != "":
@@ -1209,6 +1230,9 @@ func (e *engine) roundTrip(i int, op Op) error {
 			return nil
 		case missing:
 			e.classes["rt:missing-required"] = true
+			return nil
+		case hasExt && stage == unmar && op.Star:
+			e.noteKnown("C20-extension-lost-on-unmarshal", fmt.Sprintf("%s: %s failed (%v): the text form of a message with an extension field set by proto.set_field cannot be read back", where, stage, err))
 			return nil
 		}
 		return bad("%s: %s failed: %v", where, stage, err)
@@ -1233,7 +1257,7 @@ func (e *engine) roundTrip(i int, op Op) error {
 	if err != nil || pan != "" {
 		return obstacle(unmar, err, pan)
 	}
-	want := e.w.normalizedCopy(tgt.msg)
+	want := e.w.normalizedCopy(tgt.msg, false)
 	nh := &handle{kind: 'm', msg: want, flag: &flagT{}, origin: "unmarshal"}
 	v, ok := back.(starlark.Value)
 	if !ok {
@@ -1246,7 +1270,13 @@ func (e *engine) roundTrip(i int, op Op) error {
 		return bad("%s: result is not well-typed: %v", where, err)
 	}
 	if w := nh.render(); got != w {
-		return bad("%s: content changed: %s", where, firstDiff(w, got))
+		stripped := &handle{kind: 'm', msg: e.w.normalizedCopy(tgt.msg, true)}
+		if hasExt && !op.Star && got == stripped.render() {
+			e.noteKnown("C20-extension-lost-on-unmarshal", fmt.Sprintf("%s: extension fields set by proto.set_field are absent (proto.has false, default value) after unmarshal(marshal(m)): %s", where, firstDiff(w, got)))
+			nh.msg = stripped.msg
+		} else {
+			return bad("%s: content changed: %s", where, firstDiff(w, got))
+		}
 	}
 	e.classes["rt:"+form] = true
 	if op.I == 1 {
@@ -1301,7 +1331,7 @@ func (e *engine) verdict() error {
 	parts := strings.SplitN(e.known[0], "\x00", 2)
 	var all []string
 	for _, k := range e.known {
-		all = append(all, strings.Replace(k, "\x00", ": ", 1))
+		all = append(all, k[strings.IndexByte(k, 0)+1:])
 	}
 	return vk.Known(parts[0], errors.New(strings.Join(all, " | ")))
 }
